@@ -379,7 +379,7 @@ def _subset_construction_obligations(ctx, rep, tier):
          model.has(q, "start_dfa_state = frozenset((get_index(x) for x in self.start_state.epsilon_closure()))"),
          "the start subset is no longer the epsilon closure of the NFA's start state: expressions that begin with an optional / starred / alternated part lose their first step"),
         ("the start subset is tested for the finishing state",
-         model.has(q, "if finishing_idx in start_dfa_state:\n    target_dfa.mark_finishing(visited_states[start_dfa_state])"),
+         model.has(q, "start_dfa_state = frozenset((get_index(x) for x in self.start_state.epsilon_closure()))\n...\nif finishing_idx in start_dfa_state:\n    target_dfa.mark_finishing(visited_states[start_dfa_state])\n..."),
          "the start subset is not marked finishing when it contains the finishing state: expressions that match the empty string never finish there"),
         ("every new subset is tested for the finishing state",
          model.has(q, "if finishing_idx in new_state:\n    target_dfa.mark_finishing(visited_states[new_state])"),
